@@ -921,6 +921,9 @@ func (m *MonC12) classify(s *Snap, msg string, branchPaid ...sdk.Coins) (string,
 	for _, pk := range s.DelOrder {
 		v := s.Value(pk)
 		rp := new(big.Rat).SetInt(s.Reported(pk))
+		if mr := new(big.Rat).SetInt(ModuleReported(s, pk)); mr.Cmp(rp) > 0 {
+			rp = mr // the module's 18-digit arithmetic rounded the value up across the +0.01 threshold
+		}
 		if v.Sign() > 0 && rp.Cmp(v) > 0 {
 			rel := new(big.Rat).Quo(new(big.Rat).Sub(rp, v), v)
 			if rel.Cmp(maxRel) > 0 {
